@@ -1,9 +1,11 @@
 // vh-graph: implementation side of the graph engine (property C03).
 //
-// case:  TASKS a:b,c b: c:a ; REQ a zz ; FAIL b ; REP 0     ("-" = empty list)
+// case:  TASKS a:b,c b: c:a ; REQ a zz ; FAIL b ; REP 0 [; VARS a c]    ("-" = empty list)
 //
 //	the task table in spokfile order (name:dependencies in source order), the requested names,
-//	the tasks whose command exits 1, and a repetition counter (map iteration order varies between runs).
+//	the tasks whose command exits 1, and a repetition counter (map iteration order varies between runs);
+//	VARS: global variables of these names are declared above the tasks (`a := "."`): a variable that shares
+//	its name with a task is no business of the task graph.
 //
 // obs:   OUTCOME ok|duplicate|no-such-task|no-such-dependency|cycle|other|parse-error|panic|hang ; ORDER a b c ; RESULTS a b c
 //
@@ -89,18 +91,18 @@ func showList(l []string) string {
 	return strings.Join(l, " ")
 }
 
-func parseCase(c string) (defs []def, req []string, fail map[string]bool, ok bool) {
+func parseCase(c string) (defs []def, req []string, fail map[string]bool, vars []string, ok bool) {
 	sec := sections(c)
 	t, ok1 := sec["TASKS"]
 	r, ok2 := sec["REQ"]
 	f, ok3 := sec["FAIL"]
 	if !ok1 || !ok2 || !ok3 {
-		return nil, nil, nil, false
+		return nil, nil, nil, nil, false
 	}
 	for _, w := range listOf(t) {
 		name, ds, found := strings.Cut(w, ":")
 		if !found || name == "" {
-			return nil, nil, nil, false
+			return nil, nil, nil, nil, false
 		}
 		d := def{name: name}
 		for _, x := range strings.Split(ds, ",") {
@@ -114,11 +116,17 @@ func parseCase(c string) (defs []def, req []string, fail map[string]bool, ok boo
 	for _, x := range listOf(f) {
 		fail[x] = true
 	}
-	return defs, listOf(r), fail, true
+	return defs, listOf(r), fail, listOf(sec["VARS"]), true
 }
 
-func spokfileText(defs []def) string {
+func spokfileText(defs []def, vars []string) string {
 	var b strings.Builder
+	for _, v := range vars {
+		fmt.Fprintf(&b, "%s := \".\"\n", v)
+	}
+	if len(vars) > 0 {
+		b.WriteString("\n")
+	}
 	for _, d := range defs {
 		fmt.Fprintf(&b, "task %s(%s) {\n    echo %s\n}\n\n", d.name, strings.Join(d.deps, ", "), d.name)
 	}
@@ -164,12 +172,12 @@ func tempBase() string {
 var tempBaseOnce = tempBase()
 
 func graphWork(c string) string {
-	defs, req, fail, ok := parseCase(c)
+	defs, req, fail, vars, ok := parseCase(c)
 	if !ok {
 		return "BAD-CASE"
 	}
 	res, _ := sup.WithWatchdog(20*time.Second, func() string {
-		tree, err := parser.New(spokfileText(defs)).Parse()
+		tree, err := parser.New(spokfileText(defs, vars)).Parse()
 		if err != nil {
 			return "OUTCOME parse-error ; ORDER - ; RESULTS -"
 		}
@@ -207,12 +215,17 @@ type tcase struct {
 	defs []def
 	req  []string
 	fail []string
+	vars []string
 }
 
 func emit(w *bufio.Writer, t tcase, rep int) {
 	var ds []string
 	for _, d := range t.defs {
 		ds = append(ds, d.name+":"+strings.Join(d.deps, ","))
+	}
+	if len(t.vars) > 0 {
+		fmt.Fprintf(w, "TASKS %s ; REQ %s ; FAIL %s ; REP %d ; VARS %s\n", showList(ds), showList(t.req), showList(t.fail), rep, showList(t.vars))
+		return
 	}
 	fmt.Fprintf(w, "TASKS %s ; REQ %s ; FAIL %s ; REP %d\n", showList(ds), showList(t.req), showList(t.fail), rep)
 }
@@ -436,8 +449,16 @@ func genRandom(w *bufio.Writer, rng *rand.Rand, graphs, reqsPer, reps int) {
 			if rng.Intn(3) == 0 {
 				fl = subsetNames(n, uint(rng.Intn(1<<uint(n))))
 			}
+			// now and then global variables, some sharing their name with a task (also with a depended-upon one)
+			var vs []string
+			if rng.Intn(4) == 0 {
+				vs = subsetNames(n, uint(rng.Intn(1<<uint(n))))
+				if rng.Intn(2) == 0 {
+					vs = append(vs, "VAR")
+				}
+			}
 			for rep := 0; rep < reps; rep++ {
-				emit(w, tcase{defs: defs, req: r, fail: fl}, rep)
+				emit(w, tcase{defs: defs, req: r, fail: fl, vars: vs}, rep)
 			}
 		}
 	}
@@ -458,6 +479,7 @@ func graphGen(w *bufio.Writer, a map[string]string) {
 		genBlock(w, rng, block{n: 4, maxEdges: 4, reqLen: 1, failsPerReq: 2})
 		genBlock(w, rng, block{n: 4, maxEdges: 2, reqLen: 1, variants: true})
 		genRandom(w, rng, 600, 4, 3)
+		genWithVars(w, 3)
 		return
 	}
 	genBlock(w, rng, block{n: 1, maxEdges: 1, reqLen: 3, reps: 3, failsPerReq: 2, variants: true})
@@ -471,4 +493,17 @@ func graphGen(w *bufio.Writer, a map[string]string) {
 	genBlock(w, rng, block{n: 4, minEdges: 5, maxEdges: 5, reqLen: 2, reps: 6})
 	genBlock(w, rng, block{n: 4, maxEdges: 3, reqLen: 1, variants: true})
 	genRandom(w, rng, 5000, 4, 20)
+	genWithVars(w, 3)
+}
+
+// genWithVars: every graph over ≤ n tasks again with a global variable for every task name (and one more), every single request
+func genWithVars(w *bufio.Writer, n int) {
+	for k := 1; k <= n; k++ {
+		for mask := uint64(0); mask < 1<<uint(k*k); mask++ {
+			defs := graphDefs(k, mask, 0)
+			for i := 0; i < k; i++ {
+				emit(w, tcase{defs: defs, req: []string{taskNames[i]}, vars: append(append([]string{}, taskNames[:k]...), "VAR")}, 0)
+			}
+		}
+	}
 }
